@@ -124,6 +124,26 @@ def c19_reader(params):
     ref = [(l, v) for (l, v, _t) in words]
     if items != ref:
         out.append("parameterItems(%r) = %r, reference reading %r" % (params, items, ref))
+    # the move handler acts on the last value given for each letter (valueless repeats ignored)
+    last = {}
+    for (l, v) in ref:
+        if v is not None:
+            last[l] = v
+    try:
+        h = impl.make_handlers({})
+        impl.call_gcode(h, "G28")
+        res = impl.call_gcode(h, "G1 " + params, "G1", None)
+        if res[0] == "err":
+            out.append("G1 %s raised %s" % (params, res[1]))
+        else:
+            pos = h.state.position
+            for (letter, axis) in (("X", pos.X_AXIS), ("Y", pos.Y_AXIS), ("Z", pos.Z_AXIS), ("E", pos.E_AXIS)):
+                want = last.get(letter, 0.0)
+                if axis.current != want and not (axis.current != axis.current and want != want):
+                    out.append("after 'G1 %s' the tracked %s is %r, the last value given is %r"
+                               % (params, letter, axis.current, want))
+    except Exception as exc:  # pylint: disable=broad-except
+        out.append("exception %s: %s" % (type(exc).__name__, exc))
     return out
 
 
